@@ -1680,7 +1680,10 @@ func sameFieldLoad(a, b ssa.Value) bool {
 }
 
 // baseRoot resolves a struct base through captured variables to the parameter / allocation it denotes.
-func baseRoot(v ssa.Value) ssa.Value {
+func baseRoot(v ssa.Value) ssa.Value { return baseRoot2(v, false) }
+
+// baseRoot2 with stripFields also looks through field selections of a captured struct parameter.
+func baseRoot2(v ssa.Value, stripFields bool) ssa.Value {
 	for i := 0; i < 8; i++ {
 		switch x := v.(type) {
 		case *ssa.FreeVar:
@@ -1691,8 +1694,10 @@ func baseRoot(v ssa.Value) ssa.Value {
 		case *ssa.UnOp:
 			if x.Op == token.MUL {
 				addr := x.X
-				for fa, ok := addr.(*ssa.FieldAddr); ok; fa, ok = addr.(*ssa.FieldAddr) {
-					addr = fa.X // a field of a captured struct parameter
+				if stripFields {
+					for fa, ok := addr.(*ssa.FieldAddr); ok; fa, ok = addr.(*ssa.FieldAddr) {
+						addr = fa.X // a field of a captured struct parameter
+					}
 				}
 				if cell := eng.CellRoot(addr); cell != nil {
 					// single-store cell holding the pointer (captured parameter)
